@@ -414,3 +414,53 @@ def seq_map(fb, t, paths=None):
             out = r
         return out
     return None
+
+
+def pred_set_u8(fb, cl):
+    """the set of u8 values for which the closure / fn item `cl` (a predicate on one element) returns true, decided by evaluating
+    its MIR on each of the 256 constants (no source spelling involved: `*d > 1`, `matches!(*d, 0 | 1)`, `d == &0 || d == &1`, ...).
+    None when some value does not evaluate to a constant boolean."""
+    from .symex import Engine
+    if not (isinstance(cl, tuple) and cl and cl[0] in ("closure", "fn")):
+        return None
+    it = fb.items.get(cl[1])
+    if it is None:
+        return None
+    out = set()
+    for v in range(256):
+        eng = Engine(fb, inline=lambda i: False)
+        c = mk_const("u8", v)
+        ps = ret_paths(eng.run(it, args=([None, c] if cl[0] == "closure" else [c])))
+        if len(ps) != 1:
+            return None
+        r = eng.value_of(ps[0].store, ps[0].ret)
+        if not (is_const(r) and r[2] in (0, 1, True, False)):
+            return None
+        if r[2]:
+            out.add(v)
+    return out
+
+
+def forall_u8(fb, conds):
+    """universal facts among a path's conditions: [(sequence, allowed value set)] from `seq.iter().any(p)` being false or
+    `seq.iter().all(p)` being true, for byte sequences"""
+    out = []
+    for a, v in conds:
+        if a[0] != "b" or not isinstance(a[1], tuple) or not a[1] or a[1][0] != "call" or not isinstance(v, bool):
+            continue
+        t = a[1]
+        if len(t[2]) != 2:
+            continue
+        q = "any" if re.search(r"Iterator>?::any$", t[1]) else "all" if re.search(r"Iterator>?::all$", t[1]) else None
+        if q is None or (q == "any") != (v is False):
+            continue
+        s = pred_set_u8(fb, t[2][1])
+        if s is None:
+            continue
+        seq = t[2][0]
+        k = 0
+        while isinstance(seq, tuple) and seq and seq[0] == "call" and re.search(r"::(iter|into_iter|copied|cloned)$", seq[1]) and seq[2] and k < 4:
+            seq = seq[2][0]
+            k += 1
+        out.append((seq, s if q == "all" else set(range(256)) - s, a))
+    return out
